@@ -57,7 +57,9 @@ def main():
                     t["float64"] = int(v1.dtype == np.float64)
                     t["same_bits"] = int(v1.tobytes() == v2.tobytes())
                 except D.DriverError:
-                    raise
+                    t["exc"] = "UnloggableOutput"         # non-finite or absurdly large values returned by the generator
+                    t["v"] = [0] * 2 ** n
+                    t["v2"] = [0] * 2 ** n
                 except Exception as ex:  # noqa: BLE001
                     t["exc"] = type(ex).__name__
                     t["v"] = [0] * 2 ** n
